@@ -184,11 +184,13 @@ class RandomTopoOps:
                 s.append({"op": "RemoveService", "name": r.choice(svcs)})
             elif k < 0.68:
                 f = r.choice(["f1", "f2"])
+                fifs = r.choice([[], [], ["fa", "fb"], ["fa", "fb", "fc"], ["fa", "fb", "fa"]])
                 s.append({"op": "AddFacility", "name": f, "site": r.choice(["S1", "S2"]),
-                          "rp": r.choice([{}, {"Capacities": {"bw": "i:10"}}])})
-                if f not in facs:
+                          "rp": r.choice([{}, {"Capacities": {"bw": "i:10"}}]), **({"ifs": fifs} if fifs else {})})
+                if f not in facs and len(set(fifs)) == len(fifs):
                     facs.append(f)
-                    ifs.append("%s/%s-ns/%s-int" % (f, f, f))
+                    for i in fifs or [f + "-int"]:
+                        ifs.append("%s/%s-ns/%s" % (f, f, i))
             elif k < 0.70 and facs:
                 s.append({"op": "RemoveFacility", "name": r.choice(facs + nodes[:1])})
             elif k < 0.74 and len(svcs) >= 2:
